@@ -7,7 +7,8 @@ package main
 //	+2  CALLT under 16 flag sets, LoadScript under 16 × 16 (context flags × requested flags)
 //	+3  permission pairs: entry → caller.relay → callee.method for all callers × callees × methods
 //	+4  dynamic scripts: entry → relay.dyn → LoadScript → callee.method
-//	+5… random call chains through the relay contracts (entry flags, requested flags, safe/non-safe methods)
+//	+5  safe-marked methods that write / notify / call, via System.Contract.Call, CALLT tokens and native callbacks (safe.go)
+//	+6… random call chains through the relay contracts (entry flags, requested flags, safe/non-safe methods)
 
 import (
 	"fmt"
@@ -328,7 +329,7 @@ func chainCases(f *hx.Flags, o *hx.Out, first int) {
 		maxDepth = 6
 	}
 	for _, hf := range levels {
-		span := 5 + nChains
+		span := 6 + nChains
 		wanted := false
 		for j := k; j < k+span; j++ {
 			if f.Want(j) {
@@ -357,6 +358,7 @@ func chainCases(f *hx.Flags, o *hx.Out, first int) {
 			func(k int) { w.tokenAndLoadScript(o, k) },
 			func(k int) { w.permissionPairs(o, k) },
 			func(k int) { w.dynScripts(o, k) },
+			func(k int) { w.safeMarked(o, k) },
 		}
 		for _, fn := range fixed {
 			if f.Want(k) {
